@@ -38,6 +38,12 @@ CHECKS = {
  "C16": dict(engine="A", cat="model_checking", design="5/C16",
    tech="TLC-generated programs replayed against a logging Target; TLC trace validation checks every recorded target_get/insert/remove path against ProgramInfo.target_queries / target_assignments (equal, ancestor or descendant)",
    text="Same program space as C01 plus the C08/C09 grammars' target-touching operands: every target operation the real run performs (except Runtime::resolve's own root probe) is logged by the harness' Target wrapper with prefix and path; trace validation requires each read/removal to be covered by a reported query and each insert by a reported assignment."),
+ "C15": dict(engine="A", cat="model_checking", design="5/C15",
+   tech="TLC-enumerated read-only sets x writing programs replayed under the real CompileConfig; TLC trace validation compares Get(event/metadata, path) before and after every accepted program's run (Values.tla path semantics) and classifies the write that changed it",
+   text="TLC enumerates read-only configurations (every entry over ., .a, .a.b, .a[0], .a[1], .a[-1], %, %m, %m.k, recursive or not; thorough: pairs) x programs of one (thorough: two) writes in their neighbourhood (assignment to the path, parents, children, positive/negative/out-of-range indices, root replacement, merge, del with every index form, metadata, both targets of `ok, err =`, a write from inside a closure) x events whose .a is absent, a scalar, an object, arrays of length 0-3. Every program the real compiler accepts under that configuration is run; trace validation requires for each entry that the value at the path (recursive: deeply; otherwise same scalar / same container type) is the same before and after, and names the relation of the responsible write to the entry (syntactic parent/self/child - what the compiler's check must reject - versus index aliasing, sibling shift, container replacement)."),
+ "C17": dict(engine="A", cat="fault_enumeration", design="5/C17",
+   tech="TLC-enumerated fault schedules injected by a faulting Target into replays of TLC-generated programs; TLC trace validation of the faulted run + equality with a run on a target that skips the same operations",
+   text="TLC enumerates fault schedules (every set of at most 1 (thorough 2) ordinals among the first 7 (thorough 9) target operations of a run, ordinal 0 being Runtime::resolve's root probe) and the target-touching programs of the C08/C09 grammars (queries, assignments to event and metadata, del, exists, infallible assignment to paths). For every (program, event, schedule) the harness runs the real interpreter against a Target that rejects exactly those operations and against one that silently skips them. Trace validation walks the faulted run event by event (a rejected read must behave as null, the machine must go on exactly as the rules say, no panic event), requires a failed root probe to end the run with an error before anything is evaluated, and requires result, final event, metadata and variables of the faulted run to equal the skip run's."),
 }
 
 NA = {
